@@ -45,6 +45,8 @@ pub enum SideOp {
     QueryPath,
     /// removal-only batch on two other positions among the first 256 (indices travel as bytes)
     BatchRemove(Where, Where),
+    /// a few thousand other members registered in one request (right after / around the prover)
+    BigRegistration(u16),
 }
 
 #[derive(Clone, Copy, Debug, Serialize, Deserialize, PartialEq, Eq)]
@@ -134,6 +136,18 @@ fn apply_side(r: &mut RLN, m: &mut TreeModel, op: &SideOp, index: usize) -> Resu
             r.atomic_operation(0, Cursor::new(cr::enc_vec_fr(&[])), Cursor::new(cr::enc_vec_u8(&[i as u8, j as u8]))).map_err(|e| e.to_string())?;
             m.override_range(0, &[], &[i, j]);
         }
+        SideOp::BigRegistration(raw) => {
+            let n = [2100usize, 3000, 4097, 5000][*raw as usize % 4];
+            // the block starts at 0 when the prover sits behind it, else right after the prover
+            let start = if index >= n { 0 } else { index + 1 };
+            if start + n > CAP {
+                return Ok(());
+            }
+            let vals: Vec<Fr> = (0..n).map(|k| side_value(1 + ((k as u8).wrapping_mul((*raw % 5) as u8 + 1)) % 5)).collect();
+            let enc = cr::enc_vec_fr(&vals.iter().map(fr_to_big).collect::<Vec<_>>());
+            r.set_leaves_from(start, Cursor::new(enc)).map_err(|e| e.to_string())?;
+            m.set_range(start, &vals);
+        }
         SideOp::Range(w, vs) => {
             // range writes stay in the first 4096 positions: the persistent backend's batch insert
             // visits every node left of the range's end inside each right subtree (seconds at 2^20)
@@ -175,6 +189,7 @@ fn side_op() -> BoxedStrategy<SideOp> {
         2 => where_strategy().prop_map(SideOp::Delete),
         2 => (where_strategy(), proptest::collection::vec(0u8..6, 1..5)).prop_map(|(w, v)| SideOp::Range(w, v)),
         2 => Just(SideOp::QueryPath),
+        1 => any::<u16>().prop_map(SideOp::BigRegistration),
         2 => (where_strategy(), where_strategy()).prop_map(|(a, b)| SideOp::BatchRemove(a, b)),
     ]
     .boxed()
@@ -408,7 +423,7 @@ impl Property for C01 {
         "C01"
     }
     fn rule(&self) -> String {
-        "(secret, leaf index, limit, message id, external nullifier, signal, tree history, entry point): field values boundary-weighted, index from {0, 1, 2^19-1, 2^19, 2^20-2, 2^20-1, right half, uniform}, limit from {1, 2, 100, 65535, 65536, uniform}, message id from {0, limit-1, uniform}, signals of length 0..12000 incl. Keccak block edges; 0..3 tree operations (set/delete/range write/removal-only batch on the sibling, the other half, neighbours, first/last, uniform positions, and reads of the prover's own membership path) before and after the rate commitment is placed (set_leaf, set_leaves_from or set_next_leaf); four entry points (tree state, caller-supplied witness, raw prove with independently assembled witness and values, externally computed witness vector from the reference generator); 4 in 9 cases prove a second, related request on the same instance right afterwards (another signal / message id / external nullifier / the same request again). \
+        "(secret, leaf index, limit, message id, external nullifier, signal, tree history, entry point): field values boundary-weighted, index from {0, 1, 2^19-1, 2^19, 2^20-2, 2^20-1, right half, uniform}, limit from {1, 2, 100, 65535, 65536, uniform}, message id from {0, limit-1, uniform}, signals of length 0..12000 incl. Keccak block edges; 0..3 tree operations (set/delete/range write/removal-only batch / registration of 2100..5000 other members in one request on the sibling, the other half, neighbours, first/last, uniform positions, and reads of the prover's own membership path) before and after the rate commitment is placed (set_leaf, set_leaves_from or set_next_leaf); four entry points (tree state, caller-supplied witness, raw prove with independently assembled witness and values, externally computed witness vector from the reference generator); 4 in 9 cases prove a second, related request on the same instance right afterwards (another signal / message id / external nullifier / the same request again). \
          Oracle: proving succeeds; verify, verify_rln_proof, verify_with_roots with [root], [r1,root,r2] and the empty set all accept; published values equal the reference formulas on the ideal tree. non-trivial = index >= 2^19, mid in {0, limit-1}, limit in {1, 2^16}, a boundary field value, or signal length 0 or >= 136; distinct by case content".into()
     }
     fn assumptions(&self) -> Vec<String> {
